@@ -124,6 +124,23 @@ def leg_lists(ns, res, spec):
                 res.violation('py:column-names-modified:' + common.feature_sig(case['q']), '[py/CSVWriter on list input] the caller\'s column-name list was modified by %s: %r -> %r' % (case['query_text'], a_names0, case['a_names']), dict(case, a_names=a_names0, b_names=b_names0, engine='py', leg='csv-writer'))
                 case['a_names'], case['b_names'] = a_names0, b_names0
             res.count('column_name_list_checks')
+            # (3b) no input iterator at all: the table is named in a FROM clause and comes out of the caller's registry (what the IPython magic does)
+            if not case['q'].get('with') and n % 3 == 1:
+                out_rows = []
+                try:
+                    regs = [ns.engine.ListTableInfo('tbl', case['A'], case['a_names'])]
+                    if case['B'] is not None:
+                        regs += [ns.engine.ListTableInfo('b', case['B'], case['b_names']), ns.engine.ListTableInfo('B', case['B'], case['b_names'])]
+                    ns.rbql.query(case['query_text'] + ' FROM tbl', None, ns.engine.TableWriter(out_rows), [], ns.engine.ListTableRegistry(regs))
+                except Exception:
+                    pass
+                res.count('from_clause_registry_runs')
+                src_ids = set(id(r) for r in case['A']) | set(id(r) for r in (case['B'] or []))
+                if boundary.deep_snapshot(case['A']) != A_before or boundary.deep_snapshot(case['B']) != B_before:
+                    res.violation('py:sources-modified:from-registry:' + common.feature_sig(case['q']), '[py/FROM + registry] rows modified by %s FROM tbl: A %r -> %r' % (case['query_text'], A_before, case['A']), dict(case, engine='py', leg='from-registry'))
+                    case['A'], case['B'] = A_before, B_before
+                elif any(id(r) in src_ids for r in out_rows):
+                    res.violation('py:output-aliases-input:from-registry:' + common.feature_sig(case['q']), '[py/FROM + registry] %s FROM tbl hands the caller\'s own row objects to the writer' % case['query_text'], dict(case, engine='py', leg='from-registry'))
             # (4) JS arrays
             if not failing:
                 js.add(case, None, False)
@@ -589,8 +606,8 @@ def run_shard(spec, res):
 
 def summarize(tier, seed, m):
     return {
-        'rule': 'the query generators of C01-C05 (every query shape) plus deliberately failing variants (syntax error, parsing error, runtime error, unknown join table), each executed (1) through rbql.query with probes and snapshots, (2) through the icontract-armed query_table, (3) with the CSV writer attached to list input, (4) on the JS engine with array snapshots; list tables with numbers, None and mutable list-valued cells under %d query texts (stars, UNNEST, every aggregate, list arithmetic and methods, UPDATE, joins) through query_table, the CSV writer as sink, a mutating probe sink and pandas object columns, compared with fully deep snapshots; pandas dataframes with deep copies; a file-backed sqlite database with recording connection, authorizer log, total_changes and file hash under %d hostile table identifiers (in the query text, as input table, and passed directly to SqliteRecordIterator); query_csv with file fingerprints and an audit-hook log of every open() (one run in five with the input path spelled relatively / through .., and the output path naming the directory that holds the input, in several spellings, or a path below a missing directory); the CLI under strace. distinct_nontrivial = distinct executed (query, source) cases.' % (len(RICH_QUERIES), len(HOSTILE_IDS)),
-        'required': ['js_column_name_array_checks', 'list_runs_with_header_modifier', 'csv_runs_with_directory_or_odd_output_path', 'rich_cases_with_tuple_rows', 'js_rich_csv_sink_runs_succeeding', 'js_rich_table_runs', 'rich_runs_failing', 'rich_runs_succeeding', 'rich_runs:csv-writer-quoted', 'rich_runs:query+mutating-sink', 'rich_runs:pandas', 'list_runs_failing', 'list_runs_succeeding', 'contract_evaluations', 'csv_writer_on_list_runs', 'column_name_list_checks', 'pandas_runs_succeeding', 'pandas_runs_failing', 'pandas_runs_non_string_labels', 'sqlite_runs_hostile', 'sqlite_runs_with_open_transaction', 'sqlite_sql_statements_observed', 'sqlite_authorizer_events', 'sqlite_direct_constructor_runs', 'csv_runs_succeeding', 'csv_runs_failing', 'csv_open_events_observed', 'strace_cli_runs', 'strace_opens_of_sources_observed', 'js_cases'],
+        'rule': 'the query generators of C01-C05 (every query shape) plus deliberately failing variants (syntax error, parsing error, runtime error, unknown join table), each executed (1) through rbql.query with probes and snapshots, (2) through the icontract-armed query_table, (3) with the CSV writer attached to list input, (3b) with no input iterator at all - the table named in a FROM clause and taken from the ListTableRegistry of the caller -, (4) on the JS engine with array snapshots; list tables with numbers, None and mutable list-valued cells under %d query texts (stars, UNNEST, every aggregate, list arithmetic and methods, UPDATE, joins) through query_table, the CSV writer as sink, a mutating probe sink and pandas object columns, compared with fully deep snapshots; pandas dataframes with deep copies; a file-backed sqlite database with recording connection, authorizer log, total_changes and file hash under %d hostile table identifiers (in the query text, as input table, and passed directly to SqliteRecordIterator); query_csv with file fingerprints and an audit-hook log of every open() (one run in five with the input path spelled relatively / through .., and the output path naming the directory that holds the input, in several spellings, or a path below a missing directory); the CLI under strace. distinct_nontrivial = distinct executed (query, source) cases.' % (len(RICH_QUERIES), len(HOSTILE_IDS)),
+        'required': ['from_clause_registry_runs', 'js_column_name_array_checks', 'list_runs_with_header_modifier', 'csv_runs_with_directory_or_odd_output_path', 'rich_cases_with_tuple_rows', 'js_rich_csv_sink_runs_succeeding', 'js_rich_table_runs', 'rich_runs_failing', 'rich_runs_succeeding', 'rich_runs:csv-writer-quoted', 'rich_runs:query+mutating-sink', 'rich_runs:pandas', 'list_runs_failing', 'list_runs_succeeding', 'contract_evaluations', 'csv_writer_on_list_runs', 'column_name_list_checks', 'pandas_runs_succeeding', 'pandas_runs_failing', 'pandas_runs_non_string_labels', 'sqlite_runs_hostile', 'sqlite_runs_with_open_transaction', 'sqlite_sql_statements_observed', 'sqlite_authorizer_events', 'sqlite_direct_constructor_runs', 'csv_runs_succeeding', 'csv_runs_failing', 'csv_open_events_observed', 'strace_cli_runs', 'strace_opens_of_sources_observed', 'js_cases'],
         'assumptions': ['hostile identifiers are only required not to reach sqlite and not to change the database; the error class they produce is not demanded', 'sqlite3.connect itself opens the database file read-write; the file hash (not the open mode) decides for sqlite'],
     }
 
